@@ -107,9 +107,9 @@ type guardWalker struct {
 	sites   int
 	unclass []string
 	// params whose bound is a precondition of the function (index parameter never reassigned)
-	params  map[string]bool
-	pre     map[string]string // param -> slice it must index
-	onCall  func(call *ast.CallExpr, facts *gfacts)
+	params map[string]bool
+	pre    map[string]string // param -> slice it must index
+	onCall func(call *ast.CallExpr, facts *gfacts)
 }
 
 func (w *guardWalker) canon(s string) string {
@@ -1221,4 +1221,153 @@ func E4ValueOnError(c *core.Ctx, r *core.Report) {
 	}
 	r.Count("E4.pointer-results-with-error", n)
 	r.Floor("E4.pointer-results-with-error", 1)
+}
+
+// E4AllocCoversIndex: a slice allocated to be filled by key is sized from the key it is filled with.
+func E4AllocCoversIndex(c *core.Ctx, r *core.Report) {
+	r.Rule("E4.alloc-covers-index", "package text: where a slice made with `make([]T, L)` is afterwards stored into at an index that is not bounded by the loop it sits in (`s[K] = v` with K a field of the node being walked, e.g. breaks[b.Line] along the parent chain), the length L is `K+1` for that same key expression, evaluated on the same variable: after resolving single-assignment locals, L is textually K+1 and the variable K is read from is not reassigned between the point where L is evaluated and the loop that fills the slice. A length taken from an earlier value of the variable (the optimum's line count, before looseness picks another node) makes the first store index out of range, or leaves trailing nil entries that are dereferenced")
+	p := c.MustPkg("text")
+	info := p.TypesInfo
+	n := 0
+	for _, fd := range core.AllFuncDecls(p) {
+		if fd.Body == nil || strings.HasSuffix(c.Fset.Position(fd.Pos()).Filename, "_test.go") {
+			continue
+		}
+		fname := "text." + core.FuncName(fd)
+		// all assignments per object, in source order
+		defs := map[types.Object][]*ast.AssignStmt{}
+		ast.Inspect(fd.Body, func(m ast.Node) bool {
+			if as, ok := m.(*ast.AssignStmt); ok {
+				for _, l := range as.Lhs {
+					if id, ok := l.(*ast.Ident); ok {
+						if o := core.ObjOf(info, id); o != nil {
+							defs[o] = append(defs[o], as)
+						}
+					}
+				}
+			}
+			return true
+		})
+		// parent stack walk
+		var stack []ast.Node
+		ast.Inspect(fd.Body, func(m ast.Node) bool {
+			if m == nil {
+				stack = stack[:len(stack)-1]
+				return true
+			}
+			stack = append(stack, m)
+			as, ok := m.(*ast.AssignStmt)
+			if !ok || as.Tok != token.ASSIGN {
+				return true
+			}
+			for _, l := range as.Lhs {
+				ie, ok := core.Unparen(l).(*ast.IndexExpr)
+				if !ok {
+					continue
+				}
+				sid, ok := core.Unparen(ie.X).(*ast.Ident)
+				if !ok {
+					continue
+				}
+				so := core.ObjOf(info, sid)
+				// the slice must be a local made once with make([]T, L)
+				if so == nil || len(defs[so]) == 0 {
+					continue
+				}
+				var mk *ast.CallExpr
+				var mkStmt *ast.AssignStmt
+				nmake := 0
+				for _, d := range defs[so] {
+					for i, dl := range d.Lhs {
+						if id, ok := dl.(*ast.Ident); ok && core.ObjOf(info, id) == so && i < len(d.Rhs) && len(d.Lhs) == len(d.Rhs) {
+							if call, ok := core.Unparen(d.Rhs[i]).(*ast.CallExpr); ok {
+								if f, ok := call.Fun.(*ast.Ident); ok && f.Name == "make" && len(call.Args) == 2 {
+									mk, mkStmt = call, d
+									nmake++
+								}
+							}
+						}
+					}
+				}
+				if mk == nil || nmake != 1 || mkStmt.Pos() > as.Pos() {
+					continue
+				}
+				// index bounded by its loop? (induction variable / guard mentioning len(s) or the make length)
+				key := core.Unparen(ie.Index)
+				if _, isSel := key.(*ast.SelectorExpr); !isSel {
+					continue // plain induction variables and constants are E4.neighbour-guard's business
+				}
+				keyStr := types.ExprString(key)
+				root := core.RootIdent(key)
+				if root == nil {
+					continue
+				}
+				ro := core.ObjOf(info, root)
+				guarded := false
+				var loop ast.Node
+				for i := len(stack) - 2; i >= 0; i-- {
+					switch x := stack[i].(type) {
+					case *ast.IfStmt:
+						if stack[i+1] == ast.Node(x.Body) && strings.Contains(squash(c.Src(x.Cond)), squash(keyStr)+"<len("+sid.Name+")") {
+							guarded = true
+						}
+					case *ast.ForStmt, *ast.RangeStmt:
+						loop = x
+					}
+				}
+				if guarded {
+					continue
+				}
+				n++
+				okey := fmt.Sprintf("%s|slice filled at key %s is made with that key's value plus one", fname, strings.TrimPrefix(keyStr, root.Name))
+				// resolve L
+				L := core.Unparen(mk.Args[1])
+				evalPos := mkStmt.Pos()
+				resolve := func(e ast.Expr) ast.Expr {
+					if id, ok := core.Unparen(e).(*ast.Ident); ok {
+						if o := core.ObjOf(info, id); o != nil && len(defs[o]) == 1 && len(defs[o][0].Lhs) == 1 && len(defs[o][0].Rhs) == 1 {
+							if defs[o][0].Pos() < evalPos {
+								evalPos = defs[o][0].Pos()
+							}
+							return core.Unparen(defs[o][0].Rhs[0])
+						}
+					}
+					return e
+				}
+				L = resolve(L)
+				lstr := ""
+				if be, ok := L.(*ast.BinaryExpr); ok && be.Op == token.ADD {
+					x, y := resolve(be.X), resolve(be.Y)
+					if v, ok := core.ConstInt(info, y); ok && v == 1 {
+						lstr = types.ExprString(x)
+					} else if v, ok := core.ConstInt(info, x); ok && v == 1 {
+						lstr = types.ExprString(y)
+					}
+				}
+				if squash(lstr) != squash(keyStr) {
+					r.Fail("E4.alloc-covers-index", okey, c.Pos(mkStmt.Pos()), fmt.Sprintf("`%s` is made with length `%s`, but it is filled at `%s`: the length is not that key plus one", sid.Name, c.Src(mk.Args[1]), keyStr))
+					continue
+				}
+				// the root variable must not be reassigned between evalPos and the filling loop (or the store)
+				until := as.Pos()
+				if loop != nil {
+					until = loop.Pos()
+				}
+				stale := token.NoPos
+				for _, d := range defs[ro] {
+					if d.Pos() > evalPos && d.Pos() < until {
+						stale = d.Pos()
+					}
+				}
+				if stale != token.NoPos {
+					r.Fail("E4.alloc-covers-index", okey, c.Pos(mkStmt.Pos()), fmt.Sprintf("the length of `%s` is `%s+1` as evaluated at %s, but `%s` is reassigned at %s before the slice is filled at `%s`: the chosen node can have a different %s than the one the slice was sized for", sid.Name, keyStr, c.Pos(evalPos), root.Name, c.Pos(stale), keyStr, strings.TrimPrefix(keyStr, root.Name+".")))
+					continue
+				}
+				r.OK("E4.alloc-covers-index", okey, c.Pos(mkStmt.Pos()), "")
+			}
+			return true
+		})
+	}
+	r.Count("E4.keyed-fill-sites", n)
+	r.Floor("E4.keyed-fill-sites", 1)
 }
